@@ -132,6 +132,16 @@ def _truncate_by(k):
     return op
 
 
+def _truncate_only(k):
+    def op(pr):
+        for f in [f for f in glob.glob(pr.path(".zinoma/**"), recursive=True) if os.path.isfile(f)]:
+            data = open(f, "rb").read()
+            with open(f, "wb") as h:
+                h.write(data[: max(0, len(data) - k)])
+        pr.commands.append("cut the last %d byte(s) off every file under .zinoma" % k)
+    return op
+
+
 def odd_timestamps_case(pr):
     """declared files dated before 1970, at the epoch, far in the future: a rewrite is still a change"""
     pr.write("src/old.txt", "first version")
@@ -511,7 +521,11 @@ def overlapping_resources_case(pr):
     pr.clear_log()
     r = pr.run("cons")
     if "s cons" not in pr.log():
-        return {"property": "C02", "expected": "src/extra.txt, a declared input of cons, was removed: cons runs (its other inputs are reachable through two resources each)", "observed": "log %s" % pr.log(), "zinoma": r.brief()}
+        rec = {"property": ["C02", "C13"], "expected": "src/extra.txt, a declared input of cons, was removed: cons runs (its other inputs are reachable through two resources each)", "observed": "log %s" % pr.log(), "zinoma": r.brief()}
+        if c03:
+            rec["property"] = ["C02", "C13", "C03"]
+            rec["also"] = c03["expected"] + " - observed: " + c03["observed"]
+        return rec
     if c03:
         return c03
     pr.edit("src/sub/b.txt", "b2-longer")
@@ -1214,6 +1228,8 @@ def cases(seed, tier="quick"):
     ]
     for k in (1, 2, 3, 5, 8, 9, 10, 12, 16):
         out.append(C("truncate-%d" % k, skip_then("cut the last %d byte(s) off the state file + edit src/a.txt" % k, _truncate_by(k), True, "C05"), "record cut short by %d byte(s): rebuild, exit 0" % k))
+    for k in (1, 4, 9):
+        out.append(C("truncate-only-%d" % k, skip_then("cut the last %d byte(s) off the state file (nothing else changes)" % k, _truncate_only(k), True, "C05", why=" (a truncated record is discarded)"), "record cut short by %d byte(s), tree untouched: rebuild" % k))
     for kind in ("truncate", "empty", "garbage", "huge-length"):
         out.append(C("corrupt-" + kind, skip_then("corrupt state (%s) + edit src/a.txt" % kind, _corrupt(kind), True, "C05"), "corrupted record: rebuild, exit 0"))
     for sig in ("KILL", "TERM"):
